@@ -315,4 +315,43 @@ def Life.ctx (s : Life) (thread : Nat) (sig : Sig) (first parkReturns hasLogger 
 def Life.env (s : Life) (infoOn critOn : Bool) : Env :=
   { backendRunning := s.running, infoOn := infoOn, critOn := critOn }
 
+/-! ## a whole program: one logging thread, the life-cycle, the backend working in the background -/
+
+/-- what the program's main thread (and the backend, in the background) can do -/
+inductive POp
+  | log (id : Nat)            -- a log statement (its call completes)
+  | bg (k : Nat)              -- the running backend thread writes the `k` oldest queued items (any time, any amount)
+  | life (op : LOp)           -- start / start with handler / stop / normal exit
+  deriving DecidableEq, Repr, Inhabited
+
+structure Sys where
+  life : Life := {}
+  fe : Fe := {}
+  deriving DecidableEq, Repr, Inhabited
+
+/-- the backend writes the `k` oldest queued items, in queue order -/
+def Fe.write (f : Fe) (k : Nat) : Fe := { queue := f.queue.drop k, written := f.written ++ f.queue.take k }
+
+def Sys.step (P : LParams) (s : Sys) : POp → Sys
+  | .log id => if s.life.exited then s else { s with fe := s.fe.log (.stmt id) }
+  | .bg k => if s.life.running then { s with fe := s.fe.write k } else s
+  | .life .stop =>
+    -- `_exit` runs on the backend thread before the join: the drain (contract of `exitLoop`)
+    { life := s.life.step P .stop, fe := if s.life.running && !s.life.exited then s.fe.drain else s.fe }
+  | .life .exit =>
+    -- `atexit` handlers stop a running backend (drain + join); then `~ManualBackendWorker` runs `_exit()` once more
+    { life := s.life.step P .exit, fe := if s.life.exited then s.fe else s.fe.drain }
+  | .life op => { s with life := s.life.step P op }
+
+def Sys.run (P : LParams) (s : Sys) (ops : List POp) : Sys := ops.foldl (Sys.step P) s
+
+/-- the statements whose log call completed, in program order -/
+def logged : List POp → List Item
+  | [] => []
+  | .log id :: rest => .stmt id :: logged rest
+  | _ :: rest => logged rest
+
+/-- no operation after the process has exited -/
+def noExit (ops : List POp) : Bool := ops.all (fun o => o != .life .exit)
+
 end Exit
